@@ -321,6 +321,10 @@ func (it *Interp) polyIsZero(d *Poly) *smt.Term {
 	// the zero tests of k, -2k, c*lambda*k ... without non-linear reasoning modulo n.
 	raw := c.Eq(it.polyTerm(d), c.IntI(0))
 	if len(ids) == 0 && !scaled {
+		// nothing to factor out: exact special shapes ((u-v), (u-v)*P: poly_factor.go), else the raw test
+		if sp := it.polyIsZeroFactored(d); sp != nil {
+			return sp
+		}
 		return raw
 	}
 	done, _ := it.M.extra["poly.zero.lemmas"].(map[*smt.Term]bool)
@@ -330,7 +334,7 @@ func (it *Interp) polyIsZero(d *Poly) *smt.Term {
 	}
 	if !done[raw] {
 		done[raw] = true
-		it.addPC(c.Eq(raw, c.Or(r, c.Eq(it.polyTerm(q), c.IntI(0)))))
+		it.addPC(c.Eq(raw, c.Or(r, it.polyIsZero(q)))) // q: no common factor, monic (the recursion stops there)
 	}
 	return raw
 }
